@@ -26,6 +26,11 @@ const typedPrefix = ID + "/typed/"
 // typedCasesPerShard: how many of the cases of a shard belong to the typed sub-workload.
 func typedCasesPerShard(cfg mon.Config) int64 { return int64(cfg.Pick(21, 42)) }
 
+// spansCasesPerShard / parkedCasesPerShard: the cases of the span workload (spans_test.go) and of the parked focus
+// (parked_test.go) follow the typed ones.
+func spansCasesPerShard(cfg mon.Config) int64  { return int64(cfg.Pick(9, 21)) }
+func parkedCasesPerShard(cfg mon.Config) int64 { return int64(cfg.Pick(10, 25)) }
+
 func typedDebug(format string, a ...any) {
 	if os.Getenv("VERIF_TYPED_DEBUG") != "" {
 		fmt.Fprintf(os.Stderr, format+"\n", a...)
@@ -33,13 +38,21 @@ func typedDebug(format string, a ...any) {
 }
 
 type typedBase struct {
-	out   string
-	execs []string
+	out        string
+	execs      []string
+	bodyCtx    []string // span workload: (node, input, context) of the bodies
+	handlerCtx []string // span workload: (node, context) of the node-level OnStart handlers
+}
+
+// typedVariant: what a case of the typed engine is run with.
+type typedVariant struct {
+	focus string
+	spans string // "" or a mode of the span workload (spans_test.go)
 }
 
 // typedBaseline runs the spec uninterrupted in one paradigm.
-func typedBaseline(ctx context.Context, g *tGraph, para, seed string, chunks int) (*typedBase, string) {
-	h := runTyped(ctx, g, nil, histOpts{Paras: []string{para}, MaxCalls: 1, InputSeed: seed, InChunks: chunks})
+func typedBaseline(ctx context.Context, g *tGraph, para, seed string, chunks int, spans string) (*typedBase, string) {
+	h := runTyped(ctx, g, nil, histOpts{Paras: []string{para}, MaxCalls: 1, InputSeed: seed, InChunks: chunks, Spans: spans})
 	switch {
 	case h.BuildErr != nil:
 		return nil, "build-error: " + h.BuildErr.Error()
@@ -48,7 +61,7 @@ func typedBaseline(ctx context.Context, g *tGraph, para, seed string, chunks int
 	case !h.Completed:
 		return nil, "fails: " + h.final().String()
 	}
-	return &typedBase{out: render(h.final().Out), execs: execMultiset(h.execs())}, ""
+	return &typedBase{out: render(h.final().Out), execs: execMultiset(h.execs()), bodyCtx: bodyContexts(h.execs()), handlerCtx: handlerContexts(h.execs())}, ""
 }
 
 func typedPlans(r *mon.Rand, cfg mon.Config, g *tGraph, focus string) []tPlan {
@@ -127,6 +140,28 @@ func typedParadigms(r *mon.Rand, plan tPlan) [][]string {
 func typedCase(ctx context.Context, rep *mon.Reporter, rng *mon.Rand, cfg mon.Config, j int64) {
 	focus := focuses[int(j)%len(focuses)]
 	g := genTyped(rng, focus, cfg.Thorough())
+	typedSpecCase(ctx, rep, rng, cfg, g, typedVariant{focus: focus}, j < 2)
+}
+
+// spansCase: a typed spec run with callback handlers that derive the context (spans_test.go).
+func spansCase(ctx context.Context, rep *mon.Reporter, rng *mon.Rand, cfg mon.Config, j int64) {
+	focus := focuses[int(j)%len(focuses)]
+	mode := spanModes[int(j/int64(len(focuses)))%len(spanModes)]
+	var g *tGraph
+	for try := 0; ; try++ {
+		g = genTyped(rng, focus, cfg.Thorough())
+		// a handler designated to a nested graph needs one; nested graphs are what every mode is about
+		if g.depth() > 0 || (mode != "designated" && try >= 2) || try >= 12 {
+			break
+		}
+	}
+	rep.Count("spans_specs", 1)
+	rep.Count("spans_specs_"+mode, 1)
+	typedSpecCase(ctx, rep, rng, cfg, g, typedVariant{focus: focus, spans: mode}, j < 1)
+}
+
+func typedSpecCase(ctx context.Context, rep *mon.Reporter, rng *mon.Rand, cfg mon.Config, g *tGraph, v typedVariant, sample bool) {
+	focus := v.focus
 	seed := rng.Str(2, 6)
 	chunks := rng.Range(1, 3)
 	rep.Count("typed_specs", 1)
@@ -136,7 +171,7 @@ func typedCase(ctx context.Context, rep *mon.Reporter, rng *mon.Rand, cfg mon.Co
 		if b, ok := bases[para]; ok {
 			return b
 		}
-		b, why := typedBaseline(ctx, g, para, seed, chunks)
+		b, why := typedBaseline(ctx, g, para, seed, chunks, v.spans)
 		rep.AddEvaluations(1)
 		if b == nil {
 			rep.Count("typed_skipped_baseline_"+para+"_"+strings.SplitN(why, ":", 2)[0], 1)
@@ -150,6 +185,11 @@ func typedCase(ctx context.Context, rep *mon.Reporter, rng *mon.Rand, cfg mon.Co
 		// the uninterrupted run itself fails: not C05's business
 		return
 	}
+	if v.spans != "" && (strings.Join(bi.bodyCtx, "\n") != strings.Join(bs.bodyCtx, "\n") || strings.Join(bi.handlerCtx, "\n") != strings.Join(bs.handlerCtx, "\n")) {
+		rep.Count("spans_skipped_baseline_forms_disagree", 1)
+		typedDebug("SKIP spans focus=%s forms disagree:\n  I: %v %v\n  S: %v %v\n  spec=%s", focus, bi.bodyCtx, bi.handlerCtx, bs.bodyCtx, bs.handlerCtx, mon.Canon(g))
+		return
+	}
 	if bi.out != bs.out || strings.Join(bi.execs, "\n") != strings.Join(bs.execs, "\n") {
 		rep.Count("typed_skipped_baseline_forms_disagree", 1)
 		typedDebug("SKIP focus=%s forms disagree:\n  I: %s\n  S: %s\n  spec=%s", focus, bi.out, bs.out, mon.Canon(g))
@@ -157,24 +197,37 @@ func typedCase(ctx context.Context, rep *mon.Reporter, rng *mon.Rand, cfg mon.Co
 	}
 	rep.Count("typed_specs_judged", 1)
 	rep.Distinct("typed_shapes", focus+"|"+g.digest())
+	if v.spans != "" {
+		rep.Count("spans_specs_judged", 1)
+		if g.depth() > 0 {
+			rep.Count("spans_specs_judged_nested", 1)
+		}
+	}
 	for pi, plan := range typedPlans(rng, cfg, g, focus) {
 		for qi, paras := range typedParadigms(rng, plan) {
+			if v.spans != "" && qi >= 2 && (pi+qi)%3 != 0 {
+				continue // the span workload runs a share of the paradigm combinations
+			}
 			if b := base(paras[0]); b == nil || b.out != bi.out {
 				continue // entering through Collect / Transform does not work for this spec even uninterrupted
 			}
-			typedHistory(ctx, rep, g, focus, seed, chunks, plan, paras, bi, pi == 0 && qi == 0 && j < 2)
+			typedHistory(ctx, rep, g, v, seed, chunks, plan, paras, bi, pi == 0 && qi == 0 && sample)
 		}
 	}
 }
 
-func typedHistory(ctx context.Context, rep *mon.Reporter, g *tGraph, focus, seed string, chunks int, plan tPlan, paras []string, base *typedBase, sample bool) {
+func typedHistory(ctx context.Context, rep *mon.Reporter, g *tGraph, v typedVariant, seed string, chunks int, plan tPlan, paras []string, base *typedBase, sample bool) {
+	focus := v.focus
 	maxCalls := 2*g.bodies() + 2*len(plan) + 6
-	h := runTyped(ctx, g, plan, histOpts{Paras: paras, WithID: true, Modifier: true, Reruns: true, MaxCalls: maxCalls, InputSeed: seed, InChunks: chunks, IgnoredIn: true})
+	h := runTyped(ctx, g, plan, histOpts{Paras: paras, WithID: true, Modifier: true, Reruns: true, MaxCalls: maxCalls, InputSeed: seed, InChunks: chunks, IgnoredIn: true, Spans: v.spans})
 	rep.AddEvaluations(int64(len(h.Calls)))
 	rep.Count("typed_histories", 1)
 	rep.Count("typed_calls", int64(len(h.Calls)))
 	sig := typedPrefix + focus + "/"
 	wit := map[string]any{"spec": g, "input_seed": seed, "plan": plan.String(), "paradigms": paras}
+	if v.spans != "" {
+		wit["callback_handlers"] = v.spans
+	}
 	extra := func() string {
 		return fmt.Sprintf("input=%s\nuninterrupted run: %s\n  executions: %v\n%s", render(mk(g.In, seed)), base.out, base.execs, h.render())
 	}
@@ -227,6 +280,19 @@ func typedHistory(ctx context.Context, rep *mon.Reporter, g *tGraph, focus, seed
 		rep.Violation(sig+"executions/"+cl, fmt.Sprintf("node executions differ from the uninterrupted run: missing %v, extra %v\n%s", missing, extraE, extra()), wit)
 		return
 	}
+	// what the bodies and the node-level handlers found in their context
+	if v.spans != "" && len(h.Calls) > 1 {
+		if judgeSpans(rep, g, base, h, wit, extra) {
+			return
+		}
+		nested := false
+		for _, p := range plan {
+			nested = nested || p.Graph != ""
+		}
+		if nested {
+			rep.Count("spans_histories_interrupted_in_nested_graph", 1)
+		}
+	}
 	// the caller's state modifier
 	for i := range h.Calls {
 		seen := map[string]bool{}
@@ -261,12 +327,15 @@ func typedHistory(ctx context.Context, rep *mon.Reporter, g *tGraph, focus, seed
 	rep.Count("typed_histories_equal_to_uninterrupted_run", 1)
 	callsWithExecs := 0
 	for _, c := range h.Calls {
-		if len(c.Execs) > 0 {
-			callsWithExecs++
+		for _, e := range c.Execs {
+			if !e.OnStart {
+				callsWithExecs++
+				break
+			}
 		}
 	}
 	if interrupts >= 1 && callsWithExecs >= 2 {
-		rep.NonTrivial("typed|" + g.digest() + "|" + seed + "|" + plan.String() + fmt.Sprint(paras))
+		rep.NonTrivial("typed|" + v.spans + "|" + g.digest() + "|" + seed + "|" + plan.String() + fmt.Sprint(paras))
 		rep.Count("typed_nontrivial_"+focus, 1)
 	}
 	if sample {
